@@ -1,5 +1,6 @@
 import HeimdallModel.Lemmas.Factory
 import HeimdallModel.Lemmas.FactoryOverride
+import HeimdallModel.Lemmas.FactoryProbe
 import HeimdallModel.Model.FactoryCel
 /-!
 # C14 — effective pipelines follow stage-wise inheritance; malformed rules are rejected
@@ -798,5 +799,152 @@ example :
         [.ok { authn := [⟨.authn, "anon", false, none⟩], sh := [⟨.authz, "x1", false, some 101⟩] },
          .error .badOverride, .error .badOverride] := by
   refine ⟨by decide, by decide, by decide, by decide, by decide⟩
+
+/-! ## Identity: the mechanism an error names is one the stage's owner references
+
+A stage "consists of the rule's own mechanisms" also means: of the catalogue entries the rule *names*, not of other
+entries that happen to behave alike.  A mechanism that calls nobody (a cel authorizer) shows which entry it is through
+the error it raises: `Error.Source` in the conditions of the `on_error` steps, `Trace.src` in the executed trace
+(`Model/FactoryProbe.lean`).  For every way the mechanisms show themselves (`sh`, `fl`), every set of mechanisms that
+refuse a request (`den`) and every request (`p`): -/
+
+/-- **The source of an error is a mechanism of the stage-wise inherited pipeline.**  Whatever request an accepted
+rule executes, the error it ends with names nobody, or an authenticator, authorizer or contextualizer that the rule
+references itself if it defines that stage, and one the default rule references otherwise. -/
+theorem c14_error_source_is_stage_member {cat : Catalogue} {proxy validated : Bool} {d : Option DefaultRule}
+    {r : RuleDef} {f : Factory} {e : Effective} (h : load cat proxy validated d r = .accepted f e)
+    (sh : Showing) (fl : Flavours) (den : Refusing) (p : Probe) :
+    (execute sh fl den e p).src = "" ∨
+      ∃ st, (st = .authentication ∨ st = .handling) ∧
+        ∃ m ∈ inherit (own st r.execute r.onError) (ownDefault st d), m.id = (execute sh fl den e p).src := by
+  rcases execute_src sh fl den e p with h0 | ⟨m, hm, hid⟩ | ⟨m, hm, _, hid⟩
+  · exact Or.inl h0
+  · refine Or.inr ⟨.authentication, Or.inl rfl, m, ?_, hid⟩
+    rw [← c14_effective_stages h .authentication]; exact hm
+  · refine Or.inr ⟨.handling, Or.inr rfl, m, ?_, hid⟩
+    rw [← c14_effective_stages h .handling]; exact hm
+
+/-- **A refused request blames the first listening mechanism of the rule's own stage.**  If an accepted rule defines
+the authorization/contextualization stage itself and one of its mechanisms refuses the request, the refusing
+mechanism is the first own mechanism of that stage that refuses, it is referenced — kind and id — by a step of the
+rule's `execute`, and without an error pipeline in the way the trace names exactly its id.  The default rule's
+mechanisms play no role, whatever they are configured with. -/
+theorem c14_refused_request_blames_own_step {cat : Catalogue} {proxy validated : Bool} {d : Option DefaultRule}
+    {r : RuleDef} {f : Factory} {e : Effective} (h : load cat proxy validated d r = .accepted f e)
+    (hown : own .handling r.execute r.onError ≠ [])
+    (fl : Flavours) (den : Refusing) (p : Probe) (m : Mech) (href : (reached fl den p e.sh).2 = some m) :
+    (∃ pre post, own .handling r.execute r.onError = pre ++ m :: post ∧
+      (∀ x ∈ pre, x.refuses fl den p = false) ∧ m.refuses fl den p = true) ∧
+    (∃ s ∈ r.execute, s.target = some (m.kind, m.id) ∧ m.kind.stage = .handling) ∧
+    (∀ (sh : Showing) (kind : String), (errorStage sh fl p kind m.id []).src = m.id) := by
+  have hst : e.sh = own .handling r.execute r.onError := by
+    have := c14_effective_stages h .handling
+    simpa [Pipelines.stage, inherit, hown] using this
+  rw [hst] at href
+  have hsplit := (reached_some_iff fl den p m _).mp href
+  refine ⟨hsplit, ?_, fun _ _ => rfl⟩
+  exact own_mem_step (by decide) (reached_some_mem href).1
+
+/-- **A rule that defines both stages is never blamed on foreign mechanisms**: if the rule names at least one
+authenticator and at least one authorizer / contextualizer, every error any request ends with names nobody or a
+mechanism — kind and id — that a step of the rule's own `execute` references. -/
+theorem c14_error_source_names_own_step {cat : Catalogue} {proxy validated : Bool} {d : Option DefaultRule}
+    {r : RuleDef} {f : Factory} {e : Effective} (h : load cat proxy validated d r = .accepted f e)
+    (ha : own .authentication r.execute r.onError ≠ []) (hh : own .handling r.execute r.onError ≠ [])
+    (sh : Showing) (fl : Flavours) (den : Refusing) (p : Probe) :
+    (execute sh fl den e p).src = "" ∨
+      ∃ s ∈ r.execute, ∃ k, s.target = some (k, (execute sh fl den e p).src) := by
+  rcases c14_error_source_is_stage_member h sh fl den p with h0 | ⟨st, hst, m, hm, hid⟩
+  · exact Or.inl h0
+  · right
+    rcases hst with rfl | rfl
+    · simp only [inherit, ha, ne_eq, not_false_eq_true, if_true] at hm
+      obtain ⟨s, hs, ht, _⟩ := own_mem_step (by decide) hm
+      exact ⟨s, hs, m.kind, by rw [← hid]; exact ht⟩
+    · simp only [inherit, hh, ne_eq, not_false_eq_true, if_true] at hm
+      obtain ⟨s, hs, ht, _⟩ := own_mem_step (by decide) hm
+      exact ⟨s, hs, m.kind, by rw [← hid]; exact ht⟩
+
+/-- **… at every position of every history**: what the factory (or the mechanism catalogue behind it) created for
+other rules before — the same rule-level config over another catalogue entry, say — does not change whom the errors
+of a rule name. -/
+theorem c14_error_source_in_every_history (cat : Catalogue) (proxy validated : Bool) (d : Option DefaultRule)
+    (pre post : List RuleDef) (r : RuleDef) (f : Factory) (results : List (Except Reason Effective)) (e : Effective)
+    (hl : loadHistory cat proxy validated d (pre ++ r :: post) = .loaded f results)
+    (hk : results[pre.length]? = some (.ok e))
+    (sh : Showing) (fl : Flavours) (den : Refusing) (p : Probe) :
+    (execute sh fl den e p).src = "" ∨
+      ∃ st, (st = .authentication ∨ st = .handling) ∧
+        ∃ m ∈ inherit (own st r.execute r.onError) (ownDefault st d), m.id = (execute sh fl den e p).src := by
+  have h := c14_history_independent cat proxy validated d pre post r
+  rw [hl] at h
+  obtain ⟨res, hres, hload⟩ := h
+  rw [hk] at hres
+  cases hres
+  exact c14_error_source_is_stage_member hload sh fl den p
+
+/-- two cel authorizers `x1`, `x2` whose prototypes listen to the request that asks to be refused, an anonymous
+authenticator, a `default` error handler; override 100 is the listening expression again, 101 is `true` -/
+def typed₂ : Typed :=
+  { mech := fun k id =>
+      match k, id with
+      | .authn, "anon" => some { type := .anonymous, proto := { subject := t!"anon" } }
+      | .authz, "x1" => some { type := .cel, proto := { expressions := [t!"deny"] } }
+      | .authz, "x2" => some { type := .cel, proto := { expressions := [t!"deny"] } }
+      | .eh, "edef" => some { type := .dflt, proto := {} }
+      | _, _ => none
+    ovr := fun n =>
+      let one (src : Text) : Val :=
+        .obj (.cons t!"expressions" (.list (.cons (.obj (.cons t!"expression" (.str src) .nil)) .nil)) .nil)
+      match n with
+      | 100 => some (one t!"deny")
+      | 101 => some (one t!"true")
+      | _ => none
+    tags := [100, 101]
+    cel := fun src => if src = t!"deny" ∨ src = t!"true" then some .bool else none }
+
+def flav₂ : Flavours := fun k id =>
+  match k, id with
+  | .authn, _ => .constant
+  | .authz, _ => .silent
+  | _, _ => .passthrough
+
+def show₂ : Showing := fun m => (typed₂.variant m.kind m.id m.config).getD {}
+
+/-- `deny` spells `Request.Header("X-Deny") != "1"` -/
+def trees₂ : CelTrees := fun src =>
+  if src = t!"deny" then some (.ne (.call1 (.var "Request") "Header" (.str "X-Deny")) (.str "1"))
+  else if src = t!"true" then some (.bool true) else none
+
+def deny₂ : Probe := { authnOk := true, skip := false, deny := true }
+
+/-- the default rule puts the listening expression over `x1`, the rule the same value over `x2` -/
+def dflt₂ : DefaultRule :=
+  { execute := [{ authenticator := some "anon" }, { authorizer := some "x1", config := some 100 }] }
+def rule₂ : RuleDef := { execute := [{ authorizer := some "x2", config := some 100 }] }
+
+/-- the witness of the seeded defect: the rule is accepted with its own `x2`, the refused request names `x2` — with
+and without a `default` error handler — and `x1` when the rule leaves the stage to the default rule; a rule
+overriding `x2` with `true` is not refused at all; an effective rule holding the default rule's instance in place of
+the rule's own (what a mechanism factory sharing variants by config alone hands out) names `x1`, which no step of the
+rule references: it contradicts `c14_refused_request_blames_own_step` -/
+example :
+    load typed₂.catalogue false true (some dflt₂) rule₂ =
+      .accepted (Spec.factory false (some dflt₂)) (Spec.effective (some dflt₂) rule₂) ∧
+    (Spec.effective (some dflt₂) rule₂).sh = [⟨.authz, "x2", false, some 100⟩] ∧
+    (execute show₂ flav₂ (refusing show₂ trees₂) (Spec.effective (some dflt₂) rule₂) deny₂).src = "x2" ∧
+    (execute show₂ flav₂ (refusing show₂ trees₂)
+      (Spec.effective (some dflt₂) { rule₂ with onError := [{ errorHandler := some "edef" }] }) deny₂).src = "x2" ∧
+    (execute show₂ flav₂ (refusing show₂ trees₂)
+      (Spec.effective (some dflt₂) { execute := [{ authenticator := some "anon" }] }) deny₂).src = "x1" ∧
+    (execute show₂ flav₂ (refusing show₂ trees₂)
+      (Spec.effective (some dflt₂) { execute := [{ authorizer := some "x2", config := some 101 }] }) deny₂).src = "" ∧
+    (execute show₂ flav₂ (refusing show₂ trees₂)
+      { Spec.effective (some dflt₂) rule₂ with sh := [⟨.authz, "x1", false, some 100⟩] } deny₂).src = "x1" ∧
+    (rule₂.execute.all fun s => s.target.map (·.2) != some "x1") = true ∧
+    own .handling rule₂.execute rule₂.onError ≠ [] ∧
+    (reached flav₂ (refusing show₂ trees₂) deny₂ (Spec.effective (some dflt₂) rule₂).sh).2 =
+      some ⟨.authz, "x2", false, some 100⟩ := by
+  refine ⟨by decide, by decide, by decide, by decide, by decide, by decide, by decide, by decide, by decide, by decide⟩
 
 end Heimdall.Props.C14
